@@ -311,6 +311,16 @@ func (m *Machine) callValue(s *State, f *Frame, x *ssa.Call, cc *ssa.CallCommon,
 			setRes(IfaceV{typ: types.Universe.Lookup("error").Type(), v: &ErrV{id: m.nerr, msg: "proto: cannot parse"}})
 			return nil
 		}
+		if rep, ok := m.replace[name]; ok {
+			rf := m.hpkg.Func(rep)
+			if rf == nil {
+				s.fail("unsupported", "replacement function not found: "+rep)
+				return nil
+			}
+			m.stubs["engine-side replacement of "+name+" by harness model "+rep]++
+			m.pushFrame(s, rf, args, nil, dest)
+			return nil
+		}
 		if handled, succ := m.syncBlocking(s, f, name, args); handled {
 			return succ
 		}
@@ -328,16 +338,6 @@ func (m *Machine) callValue(s *State, f *Frame, x *ssa.Call, cc *ssa.CallCommon,
 				return nil
 			}
 			setRes(Opaque{"shallow-init call " + name})
-			return nil
-		}
-		if rep, ok := m.replace[name]; ok {
-			rf := m.hpkg.Func(rep)
-			if rf == nil {
-				s.fail("unsupported", "replacement function not found: "+rep)
-				return nil
-			}
-			m.stubs["engine-side replacement of "+name+" by harness model "+rep]++
-			m.pushFrame(s, rf, args, nil, dest)
 			return nil
 		}
 		if m.summarize[name] && x != nil {
